@@ -483,6 +483,33 @@ class Walker:
                                     mutated = True
                         if not mutated:
                             _ALIASES[vid] = c
+            # `constexpr T lowest = std::numeric_limits<T>::min();  const double lower = static_cast<double>(lowest);`
+            # a constant local, never assigned, that holds a limit of an integer type in the same type or converted to
+            # a floating type (what the comparison would do with the limit written in place): a name for that limit.
+            # Chains of such names are followed (each round resolves one more link).
+            ids = getattr(getattr(self.func, 'tu', None), 'ids', None) or {}
+            locs = single_assignment_locals(self.func.node)
+            for _round in range(4):
+                grew = False
+                for vid, init in locs.items():
+                    if vid in _ALIASES:
+                        continue
+                    d = ids.get(vid)
+                    if d is None or d.get('kind') != 'VarDecl':
+                        continue
+                    vt = (d.get('dtype') or d.get('type') or '')
+                    if not (d.get('constexpr') or vt.startswith('const ') or ' const' in vt) or '&' in vt or '*' in vt:
+                        continue
+                    c = canon(init)
+                    if not c or not c.startswith('limit.') or not c.endswith('>'):
+                        continue
+                    bare = vt.replace('constexpr', '').replace('const', '').strip()
+                    lt = c[c.index('<') + 1:-1].replace('const', '').strip()
+                    if bare == lt or bare in ('double', 'long double'):
+                        _ALIASES[vid] = c
+                        grew = True
+                if not grew:
+                    break
         if self.func.body is not None:
             self.stmt(self.func.body, set())
 
